@@ -31,6 +31,7 @@ class Gen:
             max_t=4, max_m=4, p_nonexcl=0.25, p_nested=0.15, p_struct=0.45, p_alias=0.2,
             p_rel=0.5, p_two_mods=0.2, p_fsm=0.12, p_wit=0.5, p_validate=0.2, p_enable=0.3,
             p_defect=0.0, sched="eager", p_body_in_struct=0.15, rdep_rel=True, nested=True,
+            p_rdyrun=0.0, p_badrun=0.0,
         )
         self.opt.update(opt)
         self.nin = 0
@@ -125,6 +126,29 @@ class Gen:
                         a, c = c, a
                     self.rels.append(dict(a=a, b=c, kind="before", prio="L",
                                           rdep=o["rdep_rel"] and r.random() < 0.3))
+        # run-dependent readiness (Forwarder/Pipe style): ready = input | run(a) or input & ~run(a) where a
+        # is declared earlier by nesting or schedule_before (rule of C10); p_badrun breaks the rule on purpose
+        for b in allb:
+            B = self.bodies[b - 1]
+            B["rdyrun"], B["rdymode"] = 0, "or"
+            if r.random() >= o["p_rdyrun"]:
+                continue
+            B["rdymode"] = r.choice(["or", "andnot"])
+            if r.random() < o["p_badrun"]:
+                others = [a for a in allb if a != b]
+                if others:
+                    B["rdyrun"] = r.choice(others)
+                    B["badrun"] = True
+                continue
+            if B["parent"] and r.random() < 0.5:
+                B["rdyrun"] = B["parent"]
+                continue
+            earlier = [a for a in allb if rank[a] < rank[b]]
+            if earlier:
+                a = r.choice(earlier)
+                B["rdyrun"] = a
+                if not any(x["kind"] == "before" and x["a"] == a and x["b"] == b for x in self.rels):
+                    self.rels.append(dict(a=a, b=b, kind="before", prio="L", rdep=o["rdep_rel"] and r.random() < 0.3))
         return dict(nin=self.nin, nargs=self.nargs, bodies=self.bodies, sites=self.sites, wits=self.wits,
                     rels=self.rels, sched=o["sched"], roots=[roots[1], roots[2]], nmods=nmods)
 
@@ -343,8 +367,9 @@ def flatten(design):
     design["npseudo"] = len(pseudo)
     D = {
         "nin": nin + len(pseudo), "nargs": design["nargs"], "sched": design["sched"],
-        "bodies": [{k: B[k] for k in ("kind", "ready", "nonexcl", "single", "hasarg", "validate", "comb",
-                                      "parent", "mod", "pos", "sid")} for B in bodies],
+        "bodies": [{**{k: B[k] for k in ("kind", "ready", "nonexcl", "single", "hasarg", "validate", "comb",
+                                         "parent", "mod", "pos", "sid")},
+                    "rdyrun": B.get("rdyrun", 0), "rdymode": B.get("rdymode", "or")} for B in bodies],
         "structs": structs,
         "sites": [{k: S[k] for k in ("caller", "callee", "pos", "argk", "argv")} for S in sites],
         "wits": [{"dom": w["dom"], "pos": w["pos"]} for w in wits],
@@ -356,7 +381,7 @@ def flatten(design):
 # ---------------------------------------------------------------------------------------
 # building the real circuit
 
-def build(design, scheduler=None):
+def build(design, scheduler=None, netlist_only=False):
     """Builds the real circuit.  Returns (simulator, handles).  Raises whatever elaboration
     raises for ill-formed designs."""
     from amaranth import Signal, Module, Elaboratable, Mux, Cat, Const
@@ -380,6 +405,13 @@ def build(design, scheduler=None):
 
     def sig(i):
         return H.inp[i] if i else Const(1)
+
+    def rdy(B):
+        base = sig(B["ready"])
+        a = B.get("rdyrun", 0)
+        if not a:
+            return base
+        return (base | H.obj[a].run) if B["rdymode"] == "or" else (base & ~H.obj[a].run)
 
     def or_combiner(m, args, runs):
         return {"a": reduce(lambda x, y: x | y, [Mux(runs[i], args[i].a, 0) for i in range(len(args))], Const(0, NARGBITS))}
@@ -429,7 +461,7 @@ def build(design, scheduler=None):
                     b = n["b"]
                     B = bodies[b - 1]
                     if B["kind"] == "T":
-                        with H.obj[b].body(m, ready=sig(B["ready"])):
+                        with H.obj[b].body(m, ready=rdy(B)):
                             self.emit(m, B["ch"])
                     else:
                         meth = H.obj[b]
@@ -444,7 +476,7 @@ def build(design, scheduler=None):
                             kw["validate_arguments"] = validator
                         if B["single"]:
                             kw["single_caller"] = True
-                        with meth.body(m, ready=sig(B["ready"]), out=out, **kw):
+                        with meth.body(m, ready=rdy(B), out=out, **kw):
                             self.emit(m, B["ch"])
                 elif t == "call":
                     S = sites[n["s"] - 1]
@@ -503,7 +535,19 @@ def build(design, scheduler=None):
         sub = Mod(design["roots"][1]) if design["nmods"] == 2 else None
         top = Mod(design["roots"][0], sub)
         tm = TransactionManager(scheduler) if scheduler is not None else TransactionManager()
-        sim = Simulator(Top(TransactronContextElaboratable(top, dependency_manager=dm, transaction_manager=tm)))
+        topmod = Top(TransactronContextElaboratable(top, dependency_manager=dm, transaction_manager=tm))
+        if netlist_only:
+            # structural (bit-level) combinational-cycle check of the elaborated design
+            from amaranth.hdl import Fragment
+            from amaranth.hdl import _ir, _nir
+            frag = Fragment.get(topmod, None)
+            try:
+                _ir.build_netlist(frag, ports=[s for s in H.inp[1:]] + [H.obj[b].run for b in range(1, len(bodies) + 1)])
+                return False, ""
+            except _nir.CombinationalCycle as ex:
+                return True, str(ex)[:600]
+        sim = Simulator(topmod)
+    H.tm = tm
     sim.add_clock(1e-6)
     return sim, H
 
@@ -513,10 +557,17 @@ def get_scheduler(name):
     return {"eager": eager_deterministic_cc_scheduler, "rr": trivial_roundrobin_cc_scheduler}[name]
 
 
-def run_design(design, valuations):
+def run_design(design, valuations, with_profile=False):
     """Simulate the design for the given per-cycle valuations
-    [{inp:[...nin bits], args:[...], mouts:[...]}]; returns the list of observed lines."""
+    [{inp:[...nin bits], args:[...], mouts:[...]}]; returns the list of observed lines
+    (and, with_profile, the transactron Profile recorded by the library's profiler process)."""
     sim, H = build(design, get_scheduler(design["sched"]))
+    profile = None
+    if with_profile:
+        from transactron.profiler import Profile
+        from transactron.testing.profiler import profiler_process
+        profile = Profile()
+        sim.add_process(profiler_process(H.tm, profile))
     bodies, sites, wits = design["bodies"], design["sites"], design["wits"]
     nin = design["nin"]
     sample = []
@@ -561,6 +612,8 @@ def run_design(design, valuations):
 
     sim.add_testbench(tb)
     sim.run()
+    if with_profile:
+        return lines, profile
     return lines
 
 
